@@ -58,9 +58,21 @@ def eval_case(case):
     tl = C.set_backend(be)
     try:
         settings = SETTINGS if (has_interp and not case["lean"]) else SETTINGS[:1]
-        for si, (cn, ch_) in enumerate(settings):
+        variants = [(si, cn, ch_, spec, "mu") for si, (cn, ch_) in enumerate(settings)]
+        # a model whose parameters are all bin-wise (read by direct gather): the POI normfactor removed, no POI declared
+        binwise_only = len(ps) > 1 and all(d["kind"] in ("shapesys", "staterror", "freeN") for n_, d in ps.items() if n_ != "mu")
+        if binwise_only:
+            import copy as _copy
+            sp2 = _copy.deepcopy(spec)
+            for c_ in sp2["channels"]:
+                for s_ in c_["samples"]:
+                    s_["modifiers"] = [m_ for m_ in s_["modifiers"] if m_["name"] != "mu"]
+            variants.append((0, "code4", "code4p", sp2, None))
+        spec_full, ps_full = spec, ps
+        for si, cn, ch_, spec, poi in variants:
+            ps = H.paramsets(spec)
             codes = {"normsys": cn, "histosys": ch_}
-            m = pyhf.Model(spec, poi_name="mu", modifier_settings={"normsys": {"interpcode": cn}, "histosys": {"interpcode": ch_}})
+            m = pyhf.Model(spec, poi_name=poi, modifier_settings={"normsys": {"interpcode": cn}, "histosys": {"interpcode": ch_}})
             cfg = m.config
             pts = L.points(spec, case.get("seed", 0), ps)
             if si > 0:
@@ -68,7 +80,10 @@ def eval_case(case):
             if case["lean"]:
                 pts = pts[1:]
             nuis = [i for i in range(cfg.npars) if i != cfg.poi_index]
-            masks = [[], [cfg.poi_index]] + ([[nuis[-1]], [cfg.poi_index, nuis[0]]] if nuis else [])
+            if poi is None:
+                masks = [[], [nuis[-1]]]
+            else:
+                masks = [[], [cfg.poi_index]] + ([[nuis[-1]], [cfg.poi_index, nuis[0]]] if nuis else [])
             if case["lean"] and len(masks) == 4:
                 masks = [masks[0], masks[2], masks[3]]  # none, the last nuisance alone (a fixed index preceded by free ones), POI + first nuisance
             dsets = ["int", "frac"] if not case["lean"] else ["frac"]
@@ -109,8 +124,13 @@ def eval_case(case):
                                 kw0, _ = shim(twice_nll, C.tens(dv), m, [float(x) for x in pv], cfg.suggested_bounds(), fixed_vals, do_grad=False, do_stitch=ds)
                                 var_idx = [i for i in range(cfg.npars) if i not in mask] if ds else list(range(cfg.npars))
                                 x = np.array([pv[i] for i in var_idx], dtype=np.float64)
-                                val, grad = kw["func"](C.tens(x))
+                                xt = C.tens(x)
+                                val, grad = kw["func"](xt)
                                 val0 = kw0["func"](C.tens(x))
+                                # the same tensor object evaluated again (and through a second function object): no state may accumulate
+                                val_b, grad_b = kw["func"](xt)
+                                if not np.array_equal(np.ravel(np.asarray(tl.tolist(grad_b), dtype=float)), np.ravel(np.asarray(tl.tolist(grad), dtype=float))):
+                                    issues.append(C.issue(f"C13:gradient_state:{be}", "evaluating the value-and-gradient function twice on the same tensor gives different gradients", **ctx))
                             except Exception as e:
                                 issues.append(C.issue(f"C13:raised:{type(e).__name__}:{be}", f"value-and-gradient function raised {e}"[:200], **ctx))
                                 continue
